@@ -93,6 +93,7 @@ structure World where
   conns : List (String × Nat) := []   -- connection name ↦ node index (while the client side is open)
   bufs : List (String × List Nat) := []   -- bytes received on a connection and not yet consumed by the decoder
   deaf : List String := []                -- open connections nobody reads from (CONNECT was refused)
+  hs : List (String × Int) := []          -- accepted connections and the deadline for their CONNECT packet (3 s)
 deriving Repr
 
 def initPool : IdPool.Pool := (IdPool.get (IdPool.new 0 65535)).1
